@@ -131,9 +131,10 @@ def handle_return(hr):
 def attribute_access(pf):
     n = norm(pf)
     want = ("Boxed_Value do_call(const Function_Params &params, const Type_Conversions_State &t_conversions) const override { const Boxed_Value &bv = params[0]; "
-            "if (bv.is_const()) { const Class *o = boxed_cast<const Class *>(bv, &t_conversions); return do_call_impl<T>(o); } else { "
-            "Class *o = boxed_cast<Class *>(bv, &t_conversions); return do_call_impl<T>(o); } }")
-    if want not in n:
+            "if (bv.is_const()) { const Class *o = boxed_cast<const Class *>(bv, &t_conversions); return do_call_impl<T>(%s); } else { "
+            "Class *o = boxed_cast<Class *>(bv, &t_conversions); return do_call_impl<T>(%s); } }")
+    # the const branch must use the const overload of do_call_impl; a null check around the pointer is fine either way
+    if not any(want % (a, a) in n for a in ("o", "chaiscript::detail::throw_if_null(o)")):
         raise Shape("Attribute_Access::do_call changed")
     if ("auto do_call_impl(const Class *o) const { if constexpr (std::is_pointer<Type>::value) { return detail::Handle_Return<const Type>::handle(o->*m_attr); } else { "
             "return detail::Handle_Return<typename std::add_lvalue_reference<typename std::add_const<Type>::type>::type>::handle(o->*m_attr); } }") not in n:
